@@ -18,6 +18,10 @@ inc3 = os.path.join(inc, "round3")
 c3p = os.path.join(inc, "confirm3.json")
 if os.path.exists(c3p) and os.path.isdir(inc3):
     items += [(k, c, inc3, "r3") for k, c in sorted(json.load(open(c3p)).items())]
+inc4 = os.path.join(inc, "round4")
+c4p = os.path.join(inc, "confirm4.json")
+if os.path.exists(c4p) and os.path.isdir(inc4):
+    items += [(k, c, inc4, "r4") for k, c in sorted(json.load(open(c4p)).items())]
 for key, c, srcroot, tag in items:
     prop, m = key.split("/")
     src = os.path.join(srcroot, prop, m)
